@@ -21,3 +21,15 @@ func VerifNextState(st SyncState, state string, paused bool, ev string) string {
 	s.syncChangesEvent = func() event { return event(ev) }
 	return string(s.nextFSMState(fsmState(state)))
 }
+
+// VerifNewSyncer builds a real StateSyncer whose waiting times are short (retry-after-failure and
+// server-up delays of at most a few milliseconds, staggered by the real staggerFn for a one-node
+// cluster), so that the C16 harness can run the real Run loop (runFSM, retrySyncFullEventFn,
+// syncChangesEventFn, resetNextFullSyncCh, Pause/Resume) against a recording SyncState.
+func VerifNewSyncer(st SyncState, interval time.Duration, shutdownCh chan struct{}) *StateSyncer {
+	s := NewStateSyncer(st, interval, shutdownCh, hclog.NewNullLogger())
+	s.ClusterSize = func() int { return 1 }
+	s.serverUpInterval = 2 * time.Millisecond
+	s.retryFailInterval = 2 * time.Millisecond
+	return s
+}
